@@ -171,7 +171,11 @@ def run_case(args):
 
         name = "SynSet"
         out = root / name
-        forms = [("none", None)] if not tgt else [("list", list(tgt_x)), ("XGrid", XGrid(tgt_x))]
+        # a plain sequence may come in any order: the written nodes are sorted, and each value belongs to its node
+        tl = list(tgt_x)
+        if rng.random() < 0.6:
+            rng.shuffle(tl) if rng.random() < 0.5 else tl.reverse()
+        forms = [("none", None)] if not tgt else [("list", tl), ("XGrid", XGrid(tgt_x))]
         done = False
         genpdf.export.dump_set = spy
         try:
